@@ -478,6 +478,7 @@ def dmrg_cross(function, N, eps = 1e-9, nswp = 10, x_start = None, kick = 2, dty
         Rm = (Rm@Rmat).t()
         # core = core.t()
         cores[k] = tn.reshape(core,[rnew,N[k],rank[k+1]])
+        rank[k] = rnew
         core = tn.reshape(core,[-1,rank[k+1]]) @ Ps[k+1]
         core = tn.reshape(core,[rank[k],-1]).t()
         _,Ps[k] = QR(core) 
